@@ -439,6 +439,38 @@ def chain_docs():
                         yield head + [(r, False)]
 
 
+def stale_sibling_docs():
+    """P at the end of a valid ancestor chain; below it an IMPLICIT child A with an implicit
+    grandchild B (both silently closed by what follows), then an EXPLICIT sibling C of A, closed
+    by ')', then every kind X: X may only land in P or further up, never in the closed A or B.
+    Both context passes (while scanning, and again while PASTEs are expanded) must agree on that."""
+    import ctxref
+    k2r = lambda k: "200" if k == "RESP" else k
+    chain = {k: [k] for k in ctxref.ROOT}
+    todo = list(ctxref.ROOT)
+    while todo:
+        q = todo.pop(0)
+        for c in ctxref.TABLE.get(q, []):
+            if c not in chain:
+                chain[c] = chain[q] + [c]
+                todo.append(c)
+    skip = ("JSIGHT", "MACRO", "PASTE")
+    for p, ch in chain.items():
+        if p in skip:
+            continue
+        kids = [a for a in ctxref.TABLE.get(p, []) if a not in skip]
+        for a in kids:
+            for b in [x for x in ctxref.TABLE.get(a, []) if x not in skip][:3]:
+                for c in kids[:4]:
+                    inner = [x for x in ctxref.TABLE.get(c, []) if x not in skip][:1]
+                    head = [(RENDER[k2r(q)][0], False) for q in ch[:-1]] + [(RENDER[k2r(p)][0], False)]
+                    head += [(RENDER[k2r(a)][0], False), (RENDER[k2r(b)][0], False), (RENDER[k2r(c)][0], True)]
+                    head += [(RENDER[k2r(i)][0], False) for i in inner] + [")"]
+                    for k in KIND_LIST:
+                        if k not in skip:
+                            yield head + [(RENDER[k][0], False)]
+
+
 def single_file_case(cid, data):
     return {"id": cid, "files": {"root.jst": data.hex()}, "dirs": [], "root": "root.jst"}
 
